@@ -92,11 +92,22 @@ UTIL_MC = {'module': 'MC_Util', 'what': 'composition of the five package machine
 CAL_LEMMA = vf.apalache_leg('CalendarLemma', 'Inv', 0, 'Ordinal(next day) = Ordinal + 1, year brackets, binary year bytes round trip, for every year in +-999 999 999')
 
 
+CONC_MC = {'module': 'MC_Conc', 'what': 'Conc: 3 goroutines x 2 calls x 3 arguments, every interleaving of Begin/End steps: with private working storage each goroutine\'s history is sequential (PerGoroutineSequential), calls do not interfere, all calls complete'}
+CONC_MC_NEG = {'module': 'MC_Conc', 'cfg': 'MC_Conc_shared', 'expect_violation': 'PerGoroutineSequential',
+               'what': 'negative control: with package-level working storage TLC finds a result computed from another goroutine\'s argument'}
+
+def CONC(name):
+    """The schedule dimension: the driver's shards as goroutines of one process (default configuration).
+    Calls of a value library must not disturb one another, so every goroutine's own trace has to be a
+    behaviour of the sequential specification (spec/Conc.tla states why that is the right demand)."""
+    return {'name': name, 'conc': True, 'goroutines': 8, 'limit': 6000, 'tiers': {'thorough': {'limit': 40000}}}
+
+
 PLANS = {
     'C01': {
         'level_text': 'Bounded-exhaustive on the specification (18 boundary years x every day x 2 formats x 8 limits; Apalache lemma on Ordinal for all years) plus TLC trace validation of one event per date carrying all 10 output paths and 10 input-path results; thorough covers all 3,652,425 dates of 0000-9999 as a day-consecutive chain. Model checking is the right level: the property is a universally quantified equation between a constructive formatter and a declarative parser, and the finite calendar can be enumerated completely.',
         'mc': [{'module': 'MC_C01', 'what': '18 boundary years x every day x {ext,basic} x 8 limits: Parse(Fmt(d)) = d, canonical shape, Ordinal counts days'}],
-        'drivers': [{'name': 'c01', 'shards': 8, 'tiers': {'thorough': {'shards': 16}}}],
+        'drivers': [{'name': 'c01', 'shards': 8, 'tiers': {'thorough': {'shards': 16}}}, CONC('c01')],
         'legs': [CAL_LEMMA],
         'codes': ['C01.'],
         'exhaustive': {'thorough': True},
@@ -112,7 +123,7 @@ PLANS = {
                               'every string over {0,1,2,3,9,-} up to length 8 (thorough 9) + extensions of "20" to length 10: '
                               'accepted <=> in DateLang with a real day, value = written components; MC_C09 checks the laws of the spec on the same domain',
                               mc_module='MC_C09')],
-        'drivers': [{'name': 'c09', 'shards': 8}],
+        'drivers': [{'name': 'c09', 'shards': 8}, CONC('c09')],
         'codes': ['C09.'],
         'exhaustive': {'quick': True, 'thorough': True},
         'rule': 'graph: complete enumeration by TLC, looked up in the recorded graph of DefaultParser[string]; '
@@ -123,7 +134,7 @@ PLANS = {
     'C11': {
         'level_text': "Decoder strictness model-checked over all 65,536 (month, day) bytes x 6 years x versions x lengths; Apalache proves the year-byte round trip for all years; real code judged on encode+decode of every date of a year range (thorough -400..9999), the decode grid, every century year's month ends, versions, lengths, random bytes, and stability of the encoding when the caller overwrites a returned slice.",
         'mc': [{'module': 'MC_C11', 'what': 'all 65536 (month,day) bytes x 6 years x versions x lengths: decode is strict; Decode(Encode(d)) = d'}],
-        'drivers': [{'name': 'c11', 'shards': 8}],
+        'drivers': [{'name': 'c11', 'shards': 8}, CONC('c11')],
         'legs': [CAL_LEMMA],
         'codes': ['C11.'],
         'rule': 'date.bin events (layout + round trip) and date.unbin events (receiver pre/post state) judged by TLC against BinEncode/BinDecodeRef',
@@ -132,7 +143,7 @@ PLANS = {
     'C07': {
         'level_text': 'Order/arithmetic laws model-checked on boundary dates; Apalache proves Ordinal(next day) = Ordinal + 1 for all years; real code judged on every adjacent pair (thorough: of the whole calendar), all pairs of a boundary set, Add grids incl. every single-component step from every month end of 60 boundary years, AddDuration around multiples of 24 h, Time/FromTime over 16 zones.',
         'mc': [{'module': 'MC_C07', 'what': 'order laws, Ordinal monotone, Normalize idempotent on boundary years'}],
-        'drivers': [{'name': 'c07', 'shards': 8, 'tiers': {'thorough': {'shards': 16}}}],
+        'drivers': [{'name': 'c07', 'shards': 8, 'tiers': {'thorough': {'shards': 16}}}, CONC('c07')],
         'legs': [CAL_LEMMA],
         'codes': ['C07.'],
         'rule': 'date.cmp / add / adddur / time / fromtime events judged by TLC against Calendar (Lt, Ord, AddYMD, Civil)',
@@ -142,6 +153,7 @@ PLANS = {
         'level_text': "The filter state machine (caller variables, build, probe) is model-checked exhaustively over a window crossing leap day, month end and year end, with a history variable proving that filters keep build-time bounds and that the five implementation shapes equal the interval predicate; the real code is stepped through the same histories (all bound pairs of a 60-date window x every probe, mutation of the caller's variables after construction).",
         'mc': [{'module': 'MC_C15', 'what': 'filter state machine: build, mutate caller variables, probe; inclusive-interval invariant'}],
         'drivers': [{'name': 'c15', 'shards': 8}],
+
         'codes': ['C15.'],
         'rule': 'histories freset/vars/fbuild/vars/fcontains* replayed against the Date state machine (filters capture bounds at build time)',
         'assumptions': COMMON_ASSUMPTIONS,
@@ -150,7 +162,7 @@ PLANS = {
         'level_text': 'Specification checked for every n <= 1999 (thorough 4999) x 128 flag sets (formatter by rule vs two parser definitions); real code judged by TLC on one event per n holding the outputs, parse-backs and Valid results of all 128 flag subsets; thorough covers every n in [0,130000]. Complete enumeration of the stated quantifier, hence model checking.',
         'mc': [{'module': 'MC_C02', 'what': 'n <= NMax x 128 flag sets: RomanValue(FmtRoman(n,f)) = n by both parser definitions, canonical form laws',
                 'tiers': {'quick': {'env': {'MC_NMAX': '1999'}}, 'thorough': {'env': {'MC_NMAX': '4999'}}}}],
-        'drivers': [{'name': 'c02', 'shards': 8, 'per': 4000, 'tiers': {'thorough': {'shards': 16, 'per': 3000}}}],
+        'drivers': [{'name': 'c02', 'shards': 8, 'per': 4000, 'tiers': {'thorough': {'shards': 16, 'per': 3000}}}, CONC('c02')],
         'codes': ['C02.'],
         'exhaustive': {'thorough': True},
         'rule': 'roman.fmtall: one event per n with the outputs, parse-backs and Valid results of all 128 flag subsets, judged against '
@@ -164,7 +176,7 @@ PLANS = {
                               'every string over {I,V,X,L,C,D,M} up to length 7 (thorough 8): accepted <=> in the group language, value = sum of groups; '
                               'lower/mixed case, []byte, Valid, UnmarshalText agree (anomalies empty); MC_C10: two parser definitions agree, parse unambiguous',
                               mc_module='MC_C10', mc_env={'quick': {'GRAPH_MAXLEN': '6'}})],
-        'drivers': [{'name': 'c10', 'shards': 8}],
+        'drivers': [{'name': 'c10', 'shards': 8}, CONC('c10')],
         'codes': ['C10.'],
         'exhaustive': {'quick': True, 'thorough': True},
         'rule': 'graph: complete enumeration by TLC; events: all 256 byte values at every position of valid numerals, insertions, all case patterns, '
@@ -174,7 +186,7 @@ PLANS = {
     'C05': {
         'level_text': 'Specification: positional parser = declarative variant reading for every position x 26 boundary bytes x 4 rules x 4 text forms; real code: every nibble value at every position, all 256 byte values at each of the 36/45 positions, insertions, deletions, limits, accessors, judged by TLC. The single-position sweeps of the property are enumerated completely.',
         'mc': [{'module': 'MC_C05', 'what': '3 background IDs x 4 text forms x every position x 26 boundary bytes x 4 rules: positional parser = declarative variant reading; round trips'}],
-        'drivers': [{'name': 'c05', 'shards': 8}],
+        'drivers': [{'name': 'c05', 'shards': 8}, CONC('c05')],
         'codes': ['C05.'],
         'rule': 'uu.fmt: all output paths + accessors + 12 parse-backs per ID (every nibble value at every position, single-bit flips, random); '
                 'uu.parse: all 256 byte values at each of the 36/45 positions, insertions, deletions, x 4 rules x {string,[]byte}, limits',
@@ -186,7 +198,7 @@ PLANS = {
                               'every string over {0,1,9,a,Z,-,.,+,v} up to length 6 (thorough 7) x 5 entry points x {string,[]byte} + UnmarshalText: '
                               'acceptance mask and value = SemVer grammar with form gating; MC_C03: split-based grammar = scanner, accepted text reproduced by formatting',
                               mc_module='MC_C03')],
-        'drivers': [{'name': 'c03', 'shards': 8, 'per': 20000}],
+        'drivers': [{'name': 'c03', 'shards': 8, 'per': 20000}, CONC('c03')],
         'codes': ['C03.'],
         'exhaustive': {'quick': True, 'thorough': True},
         'rule': 'graph: complete enumeration by TLC; events: grammar-generated versions with 1-25 digit numbers (both sides of 2^64-1), long identifier lists, '
@@ -198,6 +210,7 @@ PLANS = {
         'mc': [{'module': 'MC_C06', 'what': 'section-11 order on the universe U_K: total order laws incl. transitivity over all triples, SemVer example chain, departure class symmetric',
                 'tiers': {'quick': {'env': {'MC_K': '2'}}, 'thorough': {'env': {'MC_K': '3'}}}}],
         'drivers': [{'name': 'c06', 'shards': 8, 'per': 3000}],
+
         'codes': ['C06.'],
         'exhaustive': {'quick': True, 'thorough': True},
         'rule': 'sem.row: one event per left operand of the universe (U_3 + hand-picked identifiers quick, U_4 thorough) holding Ver.Compare against every right operand, both directions, and Latest; '
@@ -208,7 +221,7 @@ PLANS = {
         'level_text': 'Coherence laws (sign, antisymmetry, reflexivity, build ignored, equal => 0, latest never the lower, helpers = compare of parsed values and error iff a text is invalid for the helper, Next* strictly above and panic iff 2^64-1) judged by TLC on all ordered pairs of the universe in both directions, full-range cores incl. differences of exactly 2^63, raw-text helper pairs incl. identical invalid operands.',
         'mc': [{'module': 'MC_C06', 'what': 'order laws of the reference comparison (shared with C06)',
                 'tiers': {'quick': {'env': {'MC_K': '2'}}, 'thorough': {'env': {'MC_K': '3'}}}}],
-        'drivers': [{'name': 'c06', 'shards': 8, 'per': 3000}, {'name': 'c14', 'shards': 4}],
+        'drivers': [{'name': 'c06', 'shards': 8, 'per': 3000}, {'name': 'c14', 'shards': 4}, CONC('c14')],
         'codes': ['C14.'],
         'rule': 'the C06 rows and pairs judged for coherence only (sign, antisymmetry, reflexivity, build ignored, equal => 0, latest never the lower, helpers = compare of parsed values, error iff invalid), '
                 'including the mixed identifiers C06 excludes; sem.next: NextMajor/Minor/Patch on 11^3 boundary cores and every universe element (panic iff component = 2^64-1, plain release strictly above)',
@@ -216,8 +229,8 @@ PLANS = {
     },
     'C04': {
         'level_text': 'TLC judges one event per (size, switch configuration) with every marshal form and every unmarshal path; the outputs must also mean the size under the SPECIFIED grammar (BigDec exact arithmetic), so mutually compensating formatter/parser errors are caught. Values are stratified (all 64 trailing-zero counts, 20 decimal lengths, unit neighbourhoods, all n < 2^12 / 2^20) x 8 configurations.',
-        'mc': [{'module': 'MC_Size', 'what': 'BigDec homomorphism; Shorten exact and maximal; renderings parse back under the text grammar; unit products; separators never change the value'}],
-        'drivers': [{'name': 'c04', 'shards': 8, 'per': 8000, 'tiers': {'thorough': {'shards': 16}}}],
+        'mc': [{'module': 'MC_Size', 'what': 'BigDec homomorphism; Shorten exact and maximal; renderings parse back under the text grammar; unit products; separators never change the value'}, CONC_MC],
+        'drivers': [{'name': 'c04', 'shards': 8, 'per': 8000, 'tiers': {'thorough': {'shards': 16}}}, CONC('c04')],
         'codes': ['C04.'],
         'rule': 'size.marshal: one event per (size, switch configuration): MarshalText/MarshalJSON/String/PrettyString outputs, UnmarshalText/UnmarshalJSON/struct/slice/map/DefaultParser '
                 'results; demands: every path returns the size AND the output means the size under the SPECIFIED grammar. Values: all 64 trailing-zero counts, 20 decimal lengths, '
@@ -227,7 +240,7 @@ PLANS = {
     'C13': {
         'level_text': 'Shorten exactness and maximality and the grouping shape model-checked on odd x 2^k for every k; real code judged on all n < 2^14 (thorough 2^20), strata and random values for Shorten, String, PrettyString, PrettyHTML with BigDec-exact expectations.',
         'mc': [{'module': 'MC_Size', 'what': 'Shorten exact and maximal, grouping in threes from the right, on odd x 2^k for every k and boundary values'}],
-        'drivers': [{'name': 'c13', 'shards': 8, 'per': 8000, 'tiers': {'thorough': {'shards': 16}}}],
+        'drivers': [{'name': 'c13', 'shards': 8, 'per': 8000, 'tiers': {'thorough': {'shards': 16}}}, CONC('c13')],
         'codes': ['C13.'],
         'rule': 'size.marshal events judged against Shorten / FmtSize (BigDec): Shorten value and unit, exact product, String, PrettyString, PrettyHTML, DefaultFormatter(FormatHTML); '
                 'all n < 2^14 (thorough 2^20) + strata + seeded random',
@@ -236,7 +249,7 @@ PLANS = {
     'C08': {
         'level_text': 'Exact BigDec arithmetic in the specification (unit laws model-checked); real code judged on text parsing around floor((2^64-1)/multiplier) for all 18 units, every separator placement of the grammar, New over 18 numeric kinds with exact classes from math/big, Bytes over 18 kinds at mantissa and type boundaries.',
         'mc': [{'module': 'MC_Size', 'what': 'for every unit: accepted <=> value x multiplier < 2^64, zero-only units, separators never change the value, RuleDisableUnit'}],
-        'drivers': [{'name': 'c08', 'shards': 8, 'per': 20000}],
+        'drivers': [{'name': 'c08', 'shards': 8, 'per': 20000}, CONC('c08')],
         'codes': ['C08.'],
         'rule': 'size.parse (text mode): for each of the 18 units (+ unknown units) every value within +-60 (thorough +-1000) of floor((2^64-1)/mult) and of 0, powers, random, 21-27 digit numbers; '
                 'grammar-generated texts with every separator placement; size.new over 18 numeric kinds/derived types with boundary, negative, fractional, NaN, Inf values (class computed with math/big); '
@@ -247,7 +260,7 @@ PLANS = {
         'level_text': 'Two-layer specification: Ref (outcome as a function of the multiset of members) is order independent by construction and checked under all adjacent transpositions; Impl (the key loop) refines Ref for every object of <= 3 (thorough 4) members x 8 rules x 5 limits; real code judged against Ref on generated documents incl. every truncation and trailing bytes, with the abstract document derived by encoding/json.',
         'mc': [{'module': 'MC_C12', 'what': 'all objects of <= 3 (thorough 4) members from 11 member kinds in every order x 8 rules x 5 limits: Ref is order independent; the key-loop model (Impl) refines Ref; limit rule',
                 'tiers': {'quick': {'env': {'MC_MEMBERS': '3'}}, 'thorough': {'env': {'MC_MEMBERS': '4'}}}}],
-        'drivers': [{'name': 'c12', 'shards': 8, 'per': 6000, 'tiers': {'thorough': {'per': 40000}}}],
+        'drivers': [{'name': 'c12', 'shards': 8, 'per': 6000, 'tiers': {'thorough': {'per': 40000}}}, CONC('c12')],
         'codes': ['C12.'],
         'rule': 'size.parse (JSON mode) on generated documents: scalars, strings with escapes, every sequence of <= 2 members and ~19x19x28x2 sequences of 3 members, random longer objects, '
                 'whitespace styles, every truncation and 16 trailing byte strings of 6 documents, member counts around MaxObjectKeys with value/unit first, last, middle; x 12 JSON rule subsets x MaxObjectKeys in {0,1,2,3,16}; '
@@ -256,8 +269,8 @@ PLANS = {
     },
     'C16': {
         'level_text': 'A Go-slice model (heap, in-place append vs reallocation) shows the frame condition for append-only writers and a negative control breaking it; the real formatters are judged on prefixes from every byte value and from their own output alphabet, spare capacity 0..64, every flag subset, with the nil-buffer output logged in the same event.',
-        'mc': [{'module': 'MC_C16', 'what': 'Go slice model: an append-only writer satisfies the frame condition for every prefix/spare capacity/output (<= 3 each); a whole-buffer post-processing writer (negative control) breaks it'}],
-        'drivers': [{'name': 'c16', 'shards': 8}],
+        'mc': [{'module': 'MC_C16', 'what': 'Go slice model: an append-only writer satisfies the frame condition for every prefix/spare capacity/output (<= 3 each); a whole-buffer post-processing writer (negative control) breaks it'}, CONC_MC, CONC_MC_NEG],
+        'drivers': [{'name': 'c16', 'shards': 8}, CONC('c16')],
         'codes': ['C16.'],
         'rule': 'fmt.append: for each of the 5 DefaultFormatter functions, prefixes drawn from every byte value (alone and around a formatter letter), prefixes made of the symbols the formatter emits, '
                 'spare capacity 0..64, every flag subset, boundary values; the bytes on a nil buffer are logged in the same event; plus ID.URN in uu.fmt events of C05',
@@ -266,7 +279,7 @@ PLANS = {
     'C17': {
         'level_text': 'Generic receiver machine model-checked with action properties (a failing call changes nothing, scribbling changes nothing); Util.tla composes the five package machines (Isolation, KeepOnFail checked exhaustively to depth 3/4) and its simulated behaviours are replayed on persistent real receivers; seeded histories and string/bytes twins judged by TLC.',
         'pre': [gen_util_behaviours],
-        'drivers': [{'name': 'c17', 'shards': 8}, {'name': 'util', 'shards': 4, 'per': 6000}, {'name': 'ovr', 'shards': 1}],
+        'drivers': [{'name': 'c17', 'shards': 8}, {'name': 'util', 'shards': 4, 'per': 6000}, {'name': 'ovr', 'shards': 1}, CONC('c17')],
         'mc': [UTIL_MC, {'module': 'MC_C17', 'what': 'generic receiver machine: 3 parsable / 3 unparsable inputs, histories to depth 5: a failing call never changes the receiver, scribbling the input never changes earlier results'}],
         'codes': ['C17.'],
         'rule': 'recv.call: seeded histories (12 steps) of UnmarshalText/JSON/Binary/Scan per type with valid, near-valid and over-long inputs, receiver logged before/after, input snapshot and scribble; '
@@ -276,7 +289,7 @@ PLANS = {
     'C18': {
         'level_text': 'The limit gate is model-checked for the five reference parsers; every parsing/validating/comparing entry point is driven with seeded random and structured bytes (invalid UTF-8, NUL, BOM, long runs), the full limit matrix, form prefixes at limit+1 and non-ASCII bytes at every position; demands: no panic, too-long <=> over the limit, no echo of the input.',
         'pre': [gen_util_behaviours],
-        'drivers': [{'name': 'c18', 'shards': 8, 'per': 8000}, {'name': 'util', 'shards': 4, 'per': 6000}],
+        'drivers': [{'name': 'c18', 'shards': 8, 'per': 8000}, {'name': 'util', 'shards': 4, 'per': 6000}, CONC('c18')],
         'mc': [UTIL_MC, {'module': 'MC_C18', 'what': 'limit gate shared by the five parsers: maxLen x input length grid'}],
         'codes': ['C18.'],
         'rule': 'every parsing / validating / comparing entry point of the five packages on seeded random bytes, fragment soups (invalid UTF-8, multi-byte runes, NUL, BOM), long runs and mutated valid texts, '
@@ -289,6 +302,7 @@ PLANS = {
         'mc': [{'module': 'MC_C19', 'what': 'UURandom: 3 goroutines x 2 calls, all interleavings: mutual exclusion, consecutive draws, no sharing; liveness AllDone'},
                {'module': 'MC_C19', 'cfg': 'MC_C19_nolock', 'expect_violation': 'Consecutive', 'what': 'negative control: without the lock TLC finds interleaved draws'}],
         'drivers': [{'name': 'c19', 'shards': 4, 'race': True}],
+
         'legs': [race_leg, 'apalache_masks',
                  vf.apalache_leg('UURandomInd', 'IndInv', 0, 'lock protocol: Init => IndInv (5 goroutines, unbounded calls)', init='Init'),
                  vf.apalache_leg('UURandomInd', 'IndInv', 1, 'lock protocol: IndInv /\\ Next => IndInv (inductive step)', init='IndInit'),
@@ -304,6 +318,7 @@ PLANS = {
         'level_text': 'The helpers are specified as an interpreter (CaseFails); TLC enumerates every single test case and all pairs over a reduced alphabet as programs, the harness instantiates them on the real helpers with a recording TestingT, and TLC judges the recorded verdicts; the one deviation of the library is modelled by name and reported as a known finding.',
         'pre': [gen_c20_vectors],
         'drivers': [{'name': 'c20', 'shards': 8, 'per': 20000}],
+
         'codes': ['C20.'],
         'exhaustive': {'quick': True, 'thorough': True},
         'rule': 'spec -> code: TLC enumerates every single test case (3 constraints x 4 before x 4 after x 5 behaviours x 11 expectations, minus 2 uninstantiable) x 2 directions x 3 encodings x '
